@@ -31,12 +31,44 @@ func scaleCases(tier string) []scalekit.Case {
 			out = append(out, scalekit.Case{Shape: "imports-late", N: n, V: v}, scalekit.Case{Shape: "includes-late", N: n, V: v})
 		}
 	}
+	// a module with n further imports names a revision of v that is loaded only after a processing run
+	// has bound the import to the other loaded revision (variant 1: v is the first import, else the last)
+	for n := 0; n <= max; n++ {
+		for v := 0; v < 2; v++ {
+			out = append(out, scalekit.Case{Shape: "named-revision-late", N: n, V: v})
+		}
+	}
 	return out
 }
 
 func checkScale(cs scalekit.Case) scalekit.Verdict {
 	var files []dump.File
 	switch cs.Shape {
+	case "named-revision-late":
+		// identities, an augment and a deviation go through the import (type references an earlier
+		// run resolved are the recorded finding and stay out)
+		var sb strings.Builder
+		sb.WriteString(`module m { yang-version 1.1; namespace "urn:m"; prefix m;`)
+		pin := ` import v { prefix v; revision-date 2020-01-01; }`
+		if cs.V == 1 {
+			sb.WriteString(pin)
+		}
+		for i := 1; i <= cs.N; i++ {
+			fmt.Fprintf(&sb, " import lib%d { prefix %s; }", i, scale.ImportPrefix(cs.N, i))
+			files = append(files, dump.File{Name: fmt.Sprintf("lib%d.yang", i), Text: fmt.Sprintf(`module lib%d { yang-version 1.1; namespace "urn:lib%d"; prefix lib%d; identity b; container c; }`, i, i, i)})
+		}
+		if cs.V != 1 {
+			sb.WriteString(pin)
+		}
+		for i := 1; i <= cs.N; i++ {
+			p := scale.ImportPrefix(cs.N, i)
+			fmt.Fprintf(&sb, " identity i%d { base %s:b; } augment /%s:c { leaf a%d { type string; } }", i, p, p, i)
+		}
+		sb.WriteString(` identity derived { base v:vi; } augment /v:top { leaf extra { type string; } } deviation /v:top/v:x { deviate add { default d; } } }`)
+		files = append([]dump.File{{Name: "m.yang", Text: sb.String()}}, files...)
+		files = append(files,
+			dump.File{Name: "v-new.yang", Text: `module v { yang-version 1.1; namespace "urn:v"; prefix v; revision 2021-01-01; revision 2020-01-01; identity vi; identity vnew { base vi; } container top { leaf x { type string; } leaf y { type string; } } }`},
+			dump.File{Name: "v-old.yang", Text: `module v { yang-version 1.1; namespace "urn:v"; prefix v; revision 2020-01-01; identity vi; container top { leaf x { type string; } } }`})
 	case "owner-late":
 		// submodule s with n groupings, typedefs and identities of its own includes s2 and uses a
 		// grouping, a typedef and an identity of s2; the owner m includes only s and is loaded
@@ -82,7 +114,7 @@ func checkScale(cs scalekit.Case) scalekit.Verdict {
 		}
 	}
 	first := ms.Process()
-	if len(first) == 0 && cs.Shape != "owner-late" {
+	if len(first) == 0 && cs.Shape != "owner-late" && cs.Shape != "named-revision-late" {
 		return scalekit.Bad("missing-dependency-not-reported", "an error from the first Process", "none")
 	}
 	if cs.Shape == "owner-late" && cs.V == 1 {
